@@ -108,10 +108,10 @@ theorem length_filter_lt {l : List Int} {p q : Int → Bool} (himp : ∀ x, p x 
 /-- `F j` is minimal over the orbit of `j` -/
 def MinAt (sg : Graph) (F : Int → Int) (j : Int) : Prop := ∀ t, InOrb sg j t → F j ≤ F t
 
-/-- **Existence of a representative**: every isomorphism can be composed with an automorphism of the
-pattern such that the value at every node is minimal over that node's orbit (stepwise along the
-stabiliser chain; `S` = the nodes already dealt with, closed downwards). -/
-theorem exists_good_aux {g sg : Graph} (n : Nat) (S : List Int) (F : Int → Int) (hF : IsIndIso g sg F)
+/-- **Existence of a minimiser**: every function on the pattern nodes can be composed with an
+automorphism of the pattern such that the value at every node is minimal over that node's orbit
+(stepwise along the stabiliser chain; `S` = the nodes already dealt with, closed downwards). -/
+theorem exists_minimiser_aux {sg : Graph} (n : Nat) (S : List Int) (F : Int → Int)
     (hS : ∀ j ∈ S, j ∈ sg.keys) (hdown : ∀ j ∈ S, ∀ j' ∈ sg.keys, j' < j → j' ∈ S)
     (hn : (sg.keys.filter fun u => !S.contains u).length ≤ n) (hmin : ∀ j ∈ S, MinAt sg F j) :
     ∃ a, IsIndIso sg sg a ∧ (∀ j ∈ S, a j = j) ∧ ∀ j ∈ sg.keys, MinAt sg (F ∘ a) j := by
@@ -119,14 +119,14 @@ theorem exists_good_aux {g sg : Graph} (n : Nat) (S : List Int) (F : Int → Int
   | zero =>
     refine ⟨id, isAut_id sg, fun _ _ => rfl, ?_⟩
     intro j hj
-    have : (sg.keys.filter fun u => !S.contains u) = [] := List.eq_nil_of_length_eq_zero (by omega)
+    have hnil : (sg.keys.filter fun u => !S.contains u) = [] := List.eq_nil_of_length_eq_zero (by omega)
     have hjS : j ∈ S := by
       apply Classical.byContradiction
       intro hno
       have : j ∈ sg.keys.filter fun u => !S.contains u := by
         simp only [List.mem_filter, Bool.not_eq_true', List.contains_eq_mem, decide_eq_false_iff_not]
         exact ⟨hj, hno⟩
-      rw [‹(sg.keys.filter fun u => !S.contains u) = []›] at this
+      rw [hnil] at this
       simp at this
     exact hmin j hjS
   | succ n ih =>
@@ -151,7 +151,6 @@ theorem exists_good_aux {g sg : Graph} (n : Nat) (S : List Int) (F : Int → Int
         exact hiS (hdown j hj i hiK this)
       obtain ⟨t, htK, htO, htmin⟩ := exists_min F (InOrb sg i) sg.keys ⟨i, hiK, inOrb_self sg i⟩
       obtain ⟨b, hb, hbfix, hbi⟩ := htO
-      have hF' : IsIndIso g sg (F ∘ b) := indIso_comp_aut hF hb
       have hS' : ∀ j ∈ i :: S, j ∈ sg.keys := by
         intro j hj
         rcases List.mem_cons.1 hj with rfl | hj
@@ -187,17 +186,22 @@ theorem exists_good_aux {g sg : Graph} (n : Nat) (S : List Int) (F : Int → Int
           have := hmin j hj _ hc
           simp only [Function.comp, hbj]
           exact this
-      obtain ⟨a', ha', hfix', hgood⟩ := ih (i :: S) (F ∘ b) hF' hS' hdown' hn' hmin'
+      obtain ⟨a', ha', hfix', hgood⟩ := ih (i :: S) (F ∘ b) hS' hdown' hn' hmin'
       refine ⟨b ∘ a', isAut_comp hb ha', ?_, hgood⟩
       intro j hj
       simp only [Function.comp, hfix' j (List.mem_cons_of_mem _ hj)]
       exact hbfix j (hS j hj) (hlt j hj)
 
-theorem exists_good {g sg : Graph} (F : Int → Int) (hF : IsIndIso g sg F) :
+theorem exists_minimiser (sg : Graph) (F : Int → Int) :
     ∃ a, IsIndIso sg sg a ∧ ∀ j ∈ sg.keys, MinAt sg (F ∘ a) j := by
-  obtain ⟨a, ha, _, h⟩ := exists_good_aux (g := g) (sg := sg) sg.keys.length [] F hF (by simp) (by simp)
+  obtain ⟨a, ha, _, h⟩ := exists_minimiser_aux (sg := sg) sg.keys.length [] F (by simp) (by simp)
     (List.length_filter_le _ _) (by simp)
   exact ⟨a, ha, h⟩
+
+/-- **Existence of a representative**: every isomorphism can be composed with an automorphism of the
+pattern such that the value at every node is minimal over that node's orbit. -/
+theorem exists_good {g sg : Graph} (F : Int → Int) (_hF : IsIndIso g sg F) :
+    ∃ a, IsIndIso sg sg a ∧ ∀ j ∈ sg.keys, MinAt sg (F ∘ a) j := exists_minimiser sg F
 
 theorem satisfies_of_minAt {g sg : Graph} {C : Constraints} (hv : CValid sg C) {F : Int → Int}
     (hF : IsIndIso g sg F) (h : ∀ j ∈ sg.keys, MinAt sg F j) : Satisfies C sg.keys F := by
